@@ -19,6 +19,7 @@
 package c07
 
 import (
+	"os"
 	"bytes"
 	"fmt"
 	"runtime"
@@ -671,6 +672,19 @@ func TestCheck(t *testing.T) {
 		}
 		r.DecodeReplay(&probe)
 		switch probe.Layer {
+		case "T":
+			var c CaseT
+			r.DecodeReplay(&c)
+			pg := progByName(c.Prog)
+			if pg == nil {
+				t.Fatalf("unknown program %q", c.Prog)
+			}
+			x, k, d := runT(t, pg, c.Start, c.Choices)
+			r.Eval(1)
+			r.Transition(len(x.Steps))
+			if k != "" {
+				r.Fail(k+"|"+pg.name, fmt.Sprintf("%s: %s", c, d), len(x.Steps), c)
+			}
 		case "A":
 			var c CaseA
 			r.DecodeReplay(&c)
@@ -795,6 +809,14 @@ func TestCheck(t *testing.T) {
 				}
 			}
 		}
+	}
+	// Layer T: thread interleavings of the real queues (Engine T)
+	if os.Getenv("VERIF_LAYER_T") != "" {
+		bound := 2
+		if r.Thorough() {
+			bound = 3
+		}
+		layerT(t, r, bound)
 	}
 	// Layer A
 	all := casesA(r.Thorough(), clientMTU())
